@@ -89,7 +89,7 @@ example : (exec Store.init stmtTupleTwice).2 =
 still there — the destruction of version rows is a step of the write loop, after every check -/
 def histPurge : List Stmt :=
   [{ dry := false, clauses := [.createConcept 1 1 7 1 false, .createConcept 2 2 0 2 false] },
-   { dry := false, clauses := [.update (.id ⟨.concept, 2⟩) 5 none false] }]
+   { dry := false, clauses := [.update (.id ⟨.concept, 2⟩) [.setName 5] none false] }]
 example : (exec (run Store.init histPurge)
       { dry := false, clauses := [.purge (.id ⟨.concept, 2⟩) false, .createConcept 1 1 7 9 false] }).2
       = .refusedCheck .identityConflict ∧
@@ -118,8 +118,8 @@ theorem commit_versions_once (s : Store) (hwf : WF s) (st : Stmt) (q : Nat) (sta
 
 /-- three clauses touch one element: one bump, one change record, one version row -/
 def storeOne : Store := (exec Store.init { dry := false, clauses := [.createConcept 1 1 1 1 false] }).1
-example : (exec storeOne { dry := false, clauses := [.update (.id ⟨.concept, 1⟩) 3 none false,
-      .update (.id ⟨.concept, 1⟩) 4 (some 1) false, .setState (.id ⟨.concept, 1⟩) .archived none] }).2
+example : (exec storeOne { dry := false, clauses := [.update (.id ⟨.concept, 1⟩) [.setName 3] none false,
+      .update (.id ⟨.concept, 1⟩) [.setName 4] (some 1) false, .setState (.id ⟨.concept, 1⟩) .archived none] }).2
     = .done 2 .committed [⟨⟨.concept, 1⟩, .archive, 2⟩] := by decide
 
 /-- Every statement — committed, without effect, dry or refused — takes exactly the next Space
